@@ -113,7 +113,10 @@ def config_strategy():
         pages=st.lists(page, min_size=2, max_size=4),
         decoder=st.sampled_from(["greedy", "beam", "hashlm", "hashlm", "lstmlm"]), k=st.sampled_from([1, 2, 4]),
         scale=st.sampled_from([1.0, 0.5, 2.0]), lm_seed=st.integers(0, 10 ** 6), carry=st.booleans(),
-        threshold=st.sampled_from([None, 0.2, 0.6, 0.95, float("inf")])))
+        threshold=st.sampled_from([None, 0.2, 0.6, 0.95, float("inf")]),
+        # a 'veteran' decoder: the long-lived instance has already decoded that many lines (of an earlier job) when the
+        # history starts, so that instance-wide counters pass 128 during the history
+        veteran=st.sampled_from([0, 0, 0, 0, 0, 124, 250])))
 
 
 def make_decoder_machine(ctx):
@@ -142,6 +145,14 @@ def make_decoder_machine(ctx):
             self.preds = {}
             self.last = None
             self.nontrivial = False
+            if cfg.get("veteran"):
+                rs = np.random.RandomState(cfg["lm_seed"])
+                spec = [[dict(text="".join(rs.choice(list("abcde "), size=rs.randint(1, 5))), seed=int(rs.randint(0, 2 ** 31 - 1)), confuse=0.5,
+                              peak=(0.5, 2.5), prior=None, broken=None) for _ in range(cfg["veteran"])]]
+                warm = make_pages(spec)[0]
+                with catching_errors():
+                    self.decoder.process_page(warm)
+                self.ctx.event("veteran_decoder")
 
         def fresh_result(self, i):
             if i not in self.fresh:
@@ -557,10 +568,64 @@ def body_resume_state(ctx, case):
         shutil.rmtree(os.path.dirname(outs["xml"]), ignore_errors=True)
 
 
+# ---------------------------------------------------------------- pages delivered in one re-used frame buffer
+def strat_buffer_pages():
+    from hypothesis import strategies as st
+    line = st.fixed_dictionaries(dict(y=st.integers(0, 3), x0=st.integers(5, 60), length=st.integers(40, 260), dy=st.integers(-3, 3), prior=st.none()))
+    page = st.fixed_dictionaries(dict(seed=st.integers(0, 2 ** 31 - 1), lines=st.lists(line, min_size=1, max_size=3), kind=st.sampled_from(["noise", "smooth"])))
+    return st.fixed_dictionaries(dict(pages=st.lists(page, min_size=2, max_size=4), channels=st.sampled_from(["gray", "bgr", "bgra"]),
+                                      order=st.lists(st.integers(0, 3), min_size=2, max_size=6), interp=st.sampled_from([0, 1, 2])))
+
+
+def body_buffer_pages(ctx, case):
+    """One long-lived parser (line cropper only, model-free) gets every page in the same pre-allocated image buffer, as a
+    caller does who reads all scans of one size into one array - grayscale, BGR or BGRA: the crops of every page must be
+    those a fresh parser cuts from a private copy of that page."""
+    from pero_ocr.document_ocr.page_parser import PageParser
+
+    def make():
+        cp = configparser.ConfigParser()
+        cp["PAGE_PARSER"] = {"RUN_LAYOUT_PARSER": "no", "RUN_LINE_CROPPER": "yes", "RUN_OCR": "no", "RUN_DECODER": "no"}
+        cp["LINE_CROPPER"] = {"INTERP": str(case["interp"]), "LINE_SCALE": "1", "LINE_HEIGHT": "16"}
+        with contextlib.redirect_stdout(io.StringIO()):
+            return PageParser(cp, config_path="")
+
+    def convert(img):
+        if case["channels"] == "gray":
+            return np.ascontiguousarray(img[:, :, 1])
+        if case["channels"] == "bgra":
+            return np.ascontiguousarray(np.concatenate([img, 255 - img[:, :, :1]], axis=2))
+        return img
+    pages = make_parser_pages(case["pages"])
+    parser = make()
+    buf = None
+    seen = []
+    for i in case["order"]:
+        i %= len(pages)
+        img, pl = pages[i]
+        im = convert(img)
+        if buf is None:
+            buf = np.empty_like(im)
+        buf[...] = im
+        with contextlib.redirect_stdout(io.StringIO()):
+            out = ctx.must("parser_process_page_raises", parser.process_page, buf, copy.deepcopy(pl))
+            ref = ctx.must("parser_process_page_raises", make().process_page, im.copy(), copy.deepcopy(pl))
+        got = [np.array(l.crop, copy=True) for l in out.lines_iterator()]
+        want = [l.crop for l in ref.lines_iterator()]
+        ok = len(got) == len(want) and all(g.shape == w.shape and np.array_equal(g, w) for g, w in zip(got, want))
+        ctx.check(ok, "page_result_depends_on_history",
+                  lambda: "page %d after %r in a re-used %s buffer: the crops differ from those of a fresh parser; case=%r" % (i, seen, case["channels"], case))
+        seen.append(i)
+    ctx.event("channels:" + case["channels"])
+    if len(set(case["order"][k] % len(pages) for k in range(len(case["order"])))) >= 2:
+        ctx.nontrivial(repr(case))
+
+
 UNITS = [
     Unit("page_decoder", "machine", machine=make_decoder_machine, quick=320, thorough=4000, steps=10, shards_quick=8, shrink_quick=False),
     Unit("page_parser", "machine", machine=make_parser_machine, quick=64, thorough=800, steps=7, shards_quick=8, shrink_quick=False),
     Unit("transformer_pages", "given", body=body_transformer_pages, strategy=strat_transformer_pages, quick=60, thorough=800, shards_quick=4),
     Unit("resume_states", "enum", body=body_resume_state, cases=resume_state_cases, exhaustive=True, shards_quick=4, shards_thorough=4),
+    Unit("buffer_pages", "given", body=body_buffer_pages, strategy=strat_buffer_pages, quick=80, thorough=1200, shards_quick=4),
     Unit("schedule", "given", body=body_schedule, strategy=strat_schedule, quick=8, thorough=64, shards_quick=4, shards_thorough=16, shrink_quick=False),
 ]
